@@ -29,7 +29,7 @@ import (
 	"go.etcd.io/etcd/raft/v3/quorum"
 )
 
-func init() { subcmds["quorum"] = cmdQuorum }
+func init() { subcmds["quorum"] = cmdQuorum; subcmds["quorumfile"] = cmdQuorumFile }
 
 type ackMap map[uint64]quorum.Index
 
@@ -115,10 +115,26 @@ func (q *qwriter) emit(c0, c1 []uint64, acks ackMap, votes map[uint64]bool) {
 		m1[id] = struct{}{}
 	}
 	j := quorum.JointConfig{m0, m1}
-	fmt.Fprintf(q.impl, "%s %s %s %s\n",
-		idxStr(m0.CommittedIndex(acks)), vrStr(m0.VoteResult(votes)),
-		idxStr(j.CommittedIndex(acks)), vrStr(j.VoteResult(votes)))
+	fmt.Fprintln(q.impl, answer(m0, j, acks, votes))
 	q.n++
+}
+
+// safely runs one library call; a panic (e.g. an index out of range in a changed
+// CommittedIndex) is an observable answer "X", not a harness failure.
+func safely(f func() string) (res string) {
+	defer func() {
+		if r := recover(); r != nil {
+			res = "X"
+		}
+	}()
+	return f()
+}
+
+func answer(m0 quorum.MajorityConfig, j quorum.JointConfig, acks ackMap, votes map[uint64]bool) string {
+	return safely(func() string { return idxStr(m0.CommittedIndex(acks)) }) + " " +
+		safely(func() string { return vrStr(m0.VoteResult(votes)) }) + " " +
+		safely(func() string { return idxStr(j.CommittedIndex(acks)) }) + " " +
+		safely(func() string { return vrStr(j.VoteResult(votes)) })
 }
 
 func subsetOf(mask, maxid int) []uint64 {
@@ -300,4 +316,79 @@ func cmdQuorum(args []string) error {
 	}
 	fmt.Printf("quorum: %d cases\n", q.n)
 	return nil
+}
+
+// quorumfile <cases> <out>: answer every case line of an existing qcases file (used by the
+// shrinker and by --replay).
+func cmdQuorumFile(args []string) error {
+	if len(args) != 2 {
+		return fmt.Errorf("usage: quorumfile <cases> <out>")
+	}
+	in, err := os.Open(args[0])
+	if err != nil {
+		return err
+	}
+	defer in.Close()
+	fo, err := os.Create(args[1])
+	if err != nil {
+		return err
+	}
+	defer fo.Close()
+	out := bufio.NewWriterSize(fo, 1<<20)
+	sc := bufio.NewScanner(in)
+	sc.Buffer(make([]byte, 1<<20), 1<<20)
+	for sc.Scan() {
+		var toks []uint64
+		line := sc.Text()
+		if len(line) < 2 || line[0] != 'K' {
+			continue
+		}
+		start := -1
+		for i := 1; i <= len(line); i++ {
+			if i < len(line) && line[i] != ' ' {
+				if start < 0 {
+					start = i
+				}
+				continue
+			}
+			if start >= 0 {
+				v, err := strconv.ParseUint(line[start:i], 10, 64)
+				if err != nil {
+					return err
+				}
+				toks = append(toks, v)
+				start = -1
+			}
+		}
+		pos := 0
+		next := func() uint64 {
+			if pos >= len(toks) {
+				panic("short case line: " + line)
+			}
+			v := toks[pos]
+			pos++
+			return v
+		}
+		m0 := quorum.MajorityConfig{}
+		for n := next(); n > 0; n-- {
+			m0[next()] = struct{}{}
+		}
+		m1 := quorum.MajorityConfig{}
+		for n := next(); n > 0; n-- {
+			m1[next()] = struct{}{}
+		}
+		acks := ackMap{}
+		for n := next(); n > 0; n-- {
+			id := next()
+			acks[id] = quorum.Index(next())
+		}
+		votes := map[uint64]bool{}
+		for n := next(); n > 0; n-- {
+			id := next()
+			votes[id] = next() == 1
+		}
+		j := quorum.JointConfig{m0, m1}
+		fmt.Fprintln(out, answer(m0, j, acks, votes))
+	}
+	return out.Flush()
 }
